@@ -42,6 +42,7 @@ Inductive tev :=
 | TSetRejected
 | TAt (t : N)                      (* milliseconds since the start of the schedule, logged before timed events *)
 | TAccept (c : N)
+| TBackoff (l : list (N * N * bool * N))   (* the connection attempts in order: (id, time accepted, succeeded?, time the peer caused / answered the failure) *)
 | TOpen (c asn hold : N)           (* AS number (4-octet capability) and hold time of the OPEN the session sent on c *)
 | TOpenSent (c : N)                (* the peer is about to send ITS OPEN on c (it may delay it) *)
 | TKeepalive (c ph : N)            (* a KEEPALIVE after the accepting one; ph = hold time the peer announced *)
@@ -100,6 +101,21 @@ Definition ok_now (r : rstate) (c : N) : rstate :=
      pend := None; hsdone := c :: hsdone r; kalast := (c, now r) :: kalast r;
      late := late r; conns := conns r; closedret := closedret r |}.
 
+(* backoff of run() (backoff_delay_spec, backoff_reset): connection attempts are
+   sequential; after a FAILED attempt -- the session fails no earlier than the peer's
+   action that made it fail -- the next dial comes no earlier than the model's delay *)
+Fixpoint check_backoff (b : N) (l : list (N * N * bool * N)) : bool :=
+  match l with
+  | [] => true
+  | (_, _, true, _) :: rest => check_backoff bo_reset rest
+  | (_, _, false, ref) :: rest =>
+    let d := fst (bo_duration b) in
+    match rest with
+    | (_, a', _, _) :: _ => if a' + slack <? ref + d then false else check_backoff (snd (bo_duration b)) rest
+    | [] => true
+    end
+  end.
+
 (* smallest index j' >= j with [ok (nth j' sets)] *)
 Fixpoint find_from (ok : table -> bool) (l : list table) (j : nat) : option nat :=
   match l with
@@ -120,10 +136,9 @@ Definition rstep (g : cfg) (r : rstate) (e : tev) : option rstate :=
   | TSetRejected => Some r
   | TAt t => Some {| sets := sets r; nret := nret r; accepted := accepted r; now := t; bo := bo r; pend := pend r;
                      hsdone := hsdone r; kalast := kalast r; late := late r; conns := conns r; closedret := closedret r |}
+  | TBackoff l => if check_backoff bo_reset l then Some r else None
   | TAccept c => if closedret r then None
-                 (* backoff (backoff_delay_spec): after a failed attempt the next dial comes no
-                    earlier than the model's delay *)
-                 else if match pend r with Some (tf, d) => now r + slack <? tf + d | None => false end then None
+
                  else Some {| sets := sets r; nret := nret r; accepted := (c, nret r) :: accepted r; now := now r; bo := bo r; pend := None; hsdone := hsdone r; kalast := kalast r; late := late r; conns := conns r; closedret := false |}
   | TOpen c asn hold =>
     (* C17_session_open_decodes: the configured AS number and hold time (90 only for nil) *)
